@@ -11,6 +11,8 @@ CONSTANTS
   FixNonRequest = FALSE
   FixLongWs = TRUE
   FarChoices = {TRUE, FALSE}
+  HasValidator = TRUE
+  NilPointerSkipsValidation = TRUE
 INIT TableInit
 NEXT TableNext
 
